@@ -223,7 +223,7 @@ CHECKS = {
     'C12': sys_property('C12'),
     'C14': sys_property('C14'),
     'C15': sys_property('C15'),
-    'C03': loop_property('C03'),
+    'C03': sys_property('C03', also_loop=True),
     'C04': sys_property('C04', also_loop=True),
     'C07': sys_property('C07', also_loop=True),
     'C11': loop_property('C11'),
